@@ -486,6 +486,9 @@ func Text(n *gen.Node) string {
 		}
 		return strings.Join(parts, "\n")
 	case "goerrorfmulti":
+		if len(n.N) > 0 && n.N[0] == 1 {
+			return k(0) + " + " + k(1) + ": " + S[0]
+		}
 		return S[0] + ": " + k(0) + " + " + k(1)
 	case "multinofmt":
 		r := S[0]
